@@ -513,7 +513,7 @@ def run_bounded(ctx):
         # level counts 1 and 3 get sampled orderings.
         units = []
         all_terms = [fs for k in range(1, 5) for fs in itertools.combinations(range(4), k)]
-        for types, lim4 in ((("cat2", "cat2", "cat2", "num"), None), (("cat2", "cat2", "num", "num"), None),
+        for types, lim4 in ((("cat2", "cat2", "cat2", "num"), None), (("cat2", "cat2", "num", "num"), 8),
                             (("cat2", "cat2", "cat2", "cat2"), 4), (("cat2", "num", "num", "num"), 2)):
             for terms in _term_sets(4, 4):
                 units.append((types, terms, seed, False, None, "none", False, ("first", "off"), lim4 if len(terms) == 4 else None))
@@ -521,8 +521,8 @@ def run_bounded(ctx):
             "rank-span-4factors-kinds-svd",
             rule="4 factors, every pattern of categorical(2 levels)/numeric with >= 1 categorical; SVD ranks as above",
             exhaustive=False,
-            bound="4 factors; patterns cccn and ccnn: all term sets <=4 terms, every permutation; cccc / cnnn: all term sets <=3 "
-                  "terms with every permutation, 4-term sets with 4 / 2 seeded permutations; intercept first/absent",
+            bound="4 factors; pattern cccn: all term sets <=4 terms, every permutation; ccnn / cccc / cnnn: all term sets <=3 "
+                  "terms with every permutation, 4-term sets with 8 / 4 / 2 seeded permutations; intercept first/absent",
         ) as b:
             _scope(ctx, b, units, False, "4factors-kinds")
 
